@@ -95,6 +95,13 @@ func (c JSONMapCodec) Read(data []byte, ptr unsafe.Pointer, wt plenccore.WireTyp
 	if n == 0 {
 		return 0, nil
 	}
+	if n < 0 {
+		return 0, fmt.Errorf("bad count in map")
+	}
+	// Every entry takes at least one byte for its length
+	if count > uint64(len(data)-n) {
+		return 0, fmt.Errorf("map count %d exceeds data length", count)
+	}
 	offset := n
 
 	m := *(*map[string]any)(ptr)
@@ -105,10 +112,13 @@ func (c JSONMapCodec) Read(data []byte, ptr unsafe.Pointer, wt plenccore.WireTyp
 
 	for ; count > 0; count-- {
 		l, n := plenccore.ReadVarUint(data[offset:])
-		if n < 0 {
+		if n <= 0 {
 			return 0, fmt.Errorf("bad length in map")
 		}
 		offset += n
+		if l > uint64(len(data)-offset) {
+			return 0, fmt.Errorf("map entry length %d exceeds data length", l)
+		}
 		var key string
 		var val any
 
@@ -173,20 +183,32 @@ func (c JSONArrayCodec) append(data []byte, ptr unsafe.Pointer) []byte {
 
 func (c JSONArrayCodec) Read(data []byte, ptr unsafe.Pointer, wt plenccore.WireType) (n int, err error) {
 	count, n := plenccore.ReadVarUint(data)
+	if n == 0 {
+		return 0, nil
+	}
+	if n < 0 {
+		return 0, fmt.Errorf("bad count in array")
+	}
+	// Every entry takes at least one byte for its length
+	if count > uint64(len(data)-n) {
+		return 0, fmt.Errorf("array count %d exceeds data length", count)
+	}
 	offset := n
 
-	a := *(*[]any)(ptr)
-	if a == nil {
-		a = make([]any, count)
-		*(*[]any)(ptr) = a
-	}
+	// The result holds exactly the encoded elements, whatever the target held
+	// before
+	a := make([]any, count)
+	*(*[]any)(ptr) = a
 
 	for i := range a {
 		l, n := plenccore.ReadVarUint(data[offset:])
-		if n < 0 {
-			return 0, fmt.Errorf("bad length in map")
+		if n <= 0 {
+			return 0, fmt.Errorf("bad length in array")
 		}
 		offset += n
+		if l > uint64(len(data)-offset) {
+			return 0, fmt.Errorf("array entry length %d exceeds data length", l)
+		}
 
 		n, err := readJSONKV(data[offset:offset+int(l)], nil, &a[i])
 		if err != nil {
@@ -302,15 +324,26 @@ func readJSONKV(data []byte, key *string, val *any) (n int, err error) {
 
 	for offset < len(data) {
 		wt, index, n := plenccore.ReadTag(data[offset:])
+		if n <= 0 {
+			return 0, fmt.Errorf("invalid tag in JSON entry")
+		}
 		offset += n
 		switch index {
 		case 1:
 			// When using this for reading arrays we simply don't see this index
 			l, n := plenccore.ReadVarUint(data[offset:])
-			if n < 0 {
+			if n <= 0 {
 				return 0, fmt.Errorf("bad length on string field")
 			}
 			offset += n
+			if l > uint64(len(data)-offset) {
+				return 0, fmt.Errorf("length %d of string field exceeds data length", l)
+			}
+			if key == nil {
+				// array entries have no key
+				offset += int(l)
+				continue
+			}
 
 			n, err := StringCodec{}.Read(data[offset:offset+int(l)], unsafe.Pointer(key), wt)
 			if err != nil {
@@ -319,7 +352,7 @@ func readJSONKV(data []byte, key *string, val *any) (n int, err error) {
 			offset += n
 		case 2:
 			v, n := plenccore.ReadVarUint(data[offset:])
-			if n < 0 {
+			if n <= 0 {
 				return 0, fmt.Errorf("invalid map type field")
 			}
 			jType = jsonType(v)
@@ -328,10 +361,13 @@ func readJSONKV(data []byte, key *string, val *any) (n int, err error) {
 			switch jType {
 			case jsonTypeString:
 				l, n := plenccore.ReadVarUint(data[offset:])
-				if n < 0 {
+				if n <= 0 {
 					return 0, fmt.Errorf("bad length on string field")
 				}
 				offset += n
+				if l > uint64(len(data)-offset) {
+					return 0, fmt.Errorf("length %d of string field exceeds data length", l)
+				}
 				var v string
 				n, err := StringCodec{}.Read(data[offset:offset+int(l)], unsafe.Pointer(&v), wt)
 				if err != nil {
@@ -387,10 +423,13 @@ func readJSONKV(data []byte, key *string, val *any) (n int, err error) {
 
 			case jsonTypeNumber:
 				l, n := plenccore.ReadVarUint(data[offset:])
-				if n < 0 {
+				if n <= 0 {
 					return 0, fmt.Errorf("bad length on JSON number field")
 				}
 				offset += n
+				if l > uint64(len(data)-offset) {
+					return 0, fmt.Errorf("length %d of JSON number field exceeds data length", l)
+				}
 				var v json.Number
 				n, err := StringCodec{}.Read(data[offset:offset+int(l)], unsafe.Pointer(&v), wt)
 				if err != nil {
@@ -402,6 +441,8 @@ func readJSONKV(data []byte, key *string, val *any) (n int, err error) {
 			default:
 				return 0, fmt.Errorf("unexpected json type %d", jType)
 			}
+		default:
+			return 0, fmt.Errorf("unexpected json field index %d", index)
 		}
 	}
 
